@@ -223,7 +223,14 @@ class GraphBuilder:
 
         for node in nodes:
             if node.needs_seed:
-                seed = Value(jax.random.PRNGKey(0), _name=f"_model_{node.name}_seed")
+                # a node that was popped from another model keeps the seed it had there
+                key = getattr(node, "_seed_key", None)
+                node._seed_key = None
+
+                if key is None:
+                    key = jax.random.PRNGKey(0)
+
+                seed = Value(key, _name=f"_model_{node.name}_seed")
                 node.set_inputs(*node.inputs, **{"seed": seed} | node.kwinputs)
 
         return self
@@ -1182,6 +1189,7 @@ class Model:
             seed = node.kwinputs.get("seed", None)
 
             if seed is not None and seed.name.startswith("_model_"):
+                node._seed_key = seed.value
                 kwinputs = {kw: n for kw, n in node.kwinputs.items() if kw != "seed"}
                 node.set_inputs(*node.inputs, **kwinputs)
 
